@@ -36,6 +36,13 @@ def hStep : Handler := fun op j =>
   | "sys_rates" => do
       let rs ← getRxns j "rxns"
       pure (showRates (ratesDict (← getVars j "vars") rs (← getOptKeys j "keys") (← getCstr j "cstr")))
+  | "sys_rates_default_cstr" => do
+      -- get_odesys(rsys, cstr=True): default feed map over ALL substances, then rates on the substance order
+      let rs ← getRxns j "rxns"
+      let subst ← getStrList j "subst"
+      let cs := defaultCstr "feedratio" (fun sk => "fc_" ++ sk) subst
+      let fcj := (Json.arr (cs.fc.map fun kv => Json.arr #[Json.str kv.1, Json.str kv.2]).toArray).compress
+      pure (cs.frKey ++ ";" ++ fcj ++ ";" ++ showRates (ratesDict (← getVars j "vars") rs (some subst) (some cs)))
   | "law_rates" => do
       let rs ← getRxns j "rxns"
       pure (showExceptList (lawOfMassActionRates (← getRatList j "conc") (← getStrList j "keys") rs))
